@@ -30,4 +30,4 @@ class AllgatherClassWrapper(KDWrapper):
         return self.dataset.getitem_class(self.indices[idx], ctx=ctx)
 
     def getall_class(self):
-        return [self.getitem_class(self.indices[idx]) for idx in range(len(self))]
+        return [self.getitem_class(idx) for idx in range(len(self))]
